@@ -33,8 +33,8 @@ type ScriptReader struct {
 	step        int
 	stepLeft    int
 	stepStarted bool
-	Calls []Call_
-	dead  error
+	NCalls      int
+	dead        error
 }
 
 type Call_ struct {
@@ -44,7 +44,7 @@ type Call_ struct {
 }
 
 func (r *ScriptReader) Read(p []byte) (n int, err error) {
-	defer func() { r.Calls = append(r.Calls, Call_{len(p), n, err}) }()
+	r.NCalls++
 	if r.dead != nil {
 		return 0, r.dead
 	}
